@@ -167,7 +167,7 @@ impl Sub for Bytes {
         "valid text (both alphabets, lengths 0..200 quick / ..5000 thorough, biased to multiples of 16 +-3) with 0-2 injected bytes from all 256 values (lower case, other alphabet's letters, NUL, >=0x80, punctuation) at positions relative to the 16/32-byte blocks and the scalar tail; encode / encode_raw / encode_into on generic, sse2, avx2 and the dispatcher forced to each arm, EncodedSequence::encode, from_str, Display compared with the model (ok iff all bytes in the alphabet; first offending byte reported); sweep = every length n <= 40 (quick) / 100 (thorough) x every position x every byte value; non-trivial = n > 32 (vector path taken)"
     }
     fn cases(&self, tier: Tier) -> u64 {
-        tier.pick(40_000, 1_500_000)
+        tier.pick(150_000, 4_000_000)
     }
     fn strategy(&self, tier: Tier) -> BoxedStrategy<Case> {
         abc_strategy()
